@@ -6,6 +6,7 @@ import (
 	"go/token"
 	"go/types"
 	"math/big"
+	"strings"
 
 	"golang.org/x/tools/go/ssa"
 )
@@ -146,9 +147,11 @@ func (e *Enc) instr(fr *Frame, b *ssa.BasicBlock, in ssa.Instruction, st *State)
 		e.mapUpdate(fr, x, st)
 	case *ssa.Range:
 		fr.vals[x] = Val{T: []*Term{e.val(fr, x.X).t()}}
+		fr.rangeCount[x] = tb.Int(0)
 	case *ssa.Next:
 		e.next(fr, x, st)
 	case *ssa.Call:
+		e.midAsserts(fr, x, st)
 		e.call(fr, x, st)
 	case *ssa.Go:
 		e.note("go statement ignored")
@@ -677,15 +680,26 @@ func (e *Enc) mapUpdate(fr *Frame, x *ssa.MapUpdate, st *State) {
 
 func (e *Enc) next(fr *Frame, x *ssa.Next, st *State) {
 	tb := e.tb
-	tup := x.Type().(*types.Tuple)
 	ok := tb.Fresh("next_ok", "Bool")
 	rng := x.Iter.(*ssa.Range)
 	if x.IsString {
+		// the n-th iteration yields the n-th rune of the string: ghost counter per Range
 		s := e.val(fr, rng.X).t()
-		k := e.fresh("next_k", tup.At(1).Type())
-		r := e.fresh("next_r", tup.At(2).Type())
-		e.assume(tb.True(), tb.Imp(ok, tb.And(tb.Le(tb.Int(0), k), tb.Lt(k, tb.StrLen(s)), tb.Le(tb.Int(0), r), tb.Le(r, tb.Int(0x10FFFF)))))
-		fr.vals[x] = Val{T: []*Term{ok, k, r}}
+		n, has := fr.rangeCount[rng]
+		if !has {
+			n = tb.Fresh("rangecount", "Int")
+			e.assume(tb.True(), tb.Ge(n, tb.Int(0)))
+		}
+		okT := tb.Lt(n, e.runeCount(s))
+		k := tb.Func("str.runeoff", []string{"Str", "Int"}, "Int", s, n)
+		r := e.runeAt(s, n)
+		e.assume(tb.True(), tb.Imp(okT, tb.And(tb.Le(tb.Int(0), k), tb.Lt(k, tb.StrLen(s)))))
+		fr.rangeCount[rng] = tb.Add(n, tb.Int(1))
+		fr.vals[x] = Val{T: []*Term{okT, k, r}}
+		if len(e.stack) == 1 {
+			e.inputs = append(e.inputs, NamedTerm{"range-rune", r})
+		}
+		_ = ok
 		return
 	}
 	// map iteration: a present key with its value
@@ -696,4 +710,53 @@ func (e *Enc) next(fr *Frame, x *ssa.Next, st *State) {
 	e.assumeWF(tb.True(), m.Elem(), v)
 	e.assume(tb.True(), tb.Imp(ok, tb.And(tb.Not(tb.Eq(mref, tb.Int(0))), tb.Select(tb.Select(e.reg(st, has), mref), k))))
 	fr.vals[x] = Val{T: []*Term{ok, k, v}}
+}
+
+func (e *Enc) runeCount(s *Term) *Term {
+	tb := e.tb
+	c := tb.Func("str.runecount", []string{"Str"}, "Int", s)
+	if !e.wfDone[c.id] && !c.bound {
+		e.wfDone[c.id] = true
+		e.assume(tb.True(), tb.And(tb.Le(tb.Int(0), c), tb.Le(c, tb.StrLen(s))))
+	}
+	return c
+}
+
+func (e *Enc) runeAt(s, n *Term) *Term {
+	tb := e.tb
+	r := tb.Func("str.runeat", []string{"Str", "Int"}, "Int", s, n)
+	if !e.wfDone[r.id] && !r.bound {
+		e.wfDone[r.id] = true
+		e.assume(tb.True(), tb.And(tb.Le(tb.Int(0), r), tb.Le(r, tb.Int(0x10FFFF))))
+	}
+	return r
+}
+
+// midAsserts checks `assert "<anchor>" E` clauses right before the first call whose source text contains the anchor.
+func (e *Enc) midAsserts(fr *Frame, x *ssa.Call, st *State) {
+	if fr.con == nil || len(fr.con.asserts) == 0 {
+		return
+	}
+	var text string
+	for i := range fr.con.asserts {
+		a := &fr.con.asserts[i]
+		if fr.assertDone[i] {
+			continue
+		}
+		if text == "" {
+			text = e.srcText(fr.fn, x.Pos(), isCallExpr)
+		}
+		if !strings.Contains(text, a.anchor) {
+			continue
+		}
+		fr.assertDone[i] = true
+		env := e.envAt(fr, st, nil)
+		t, err := env.evalBool(a.cl.expr)
+		if err != nil {
+			e.contractError(fr, "assert:"+a.cl.label, err)
+			continue
+		}
+		q := e.oblige("assert", a.cl.label, st, t, x.Pos(), e.inputVals()...)
+		q.Text = a.cl.text
+	}
 }
